@@ -36,7 +36,7 @@ def generate(rng, tier):
     per = 6 if tier == "quick" else 12
     maxk = 6 if tier == "quick" else 40
     for _ in range(nschema):
-        opts = gen.rand_schema(rng, maxdepth=2, allow=("int", "float", "bool", "str", "sec", "func", "ptr"), p_flags=0.3, with_callbacks=True)
+        opts = gen.rand_schema(rng, maxdepth=2, allow=("int", "float", "bool", "str", "sec", "func", "ptr"), p_flags=0.3, with_callbacks=True, p_simple=0.12)
         allo = list(gen.all_opts(opts))
         sl = schema_lines(opts)
         for _ in range(per):
